@@ -170,10 +170,14 @@ type Opt func(*subState)
 // Variant says which binary variant runs this sub-check.
 func Variant(v string) Opt { return func(s *subState) { s.Variant = v } }
 
-// Journal makes the worker announce every case before running it, so that a
+// Journal (the default since every sub-check journals) makes the worker announce every case before running it, so that a
 // hard process crash (panic in a goroutine the harness does not own, fatal
 // error) is attributed to the case.
 func Journal() Opt { return func(s *subState) { s.journal = true } }
+
+// NoJournal switches the announcement off (sub-checks with millions of tiny cases whose
+// bodies recover from panics themselves).
+func NoJournal() Opt { return func(s *subState) { s.journal = false } }
 
 // Watchdog gives every case of the sub-check a termination oracle: a case that has not
 // returned after d is reported as a violation ("hang:case-did-not-return") and the worker
@@ -200,7 +204,9 @@ const hangExit = 97
 
 // NewSub declares a sub-check. run is called once per case.
 func NewSub[C any](w *W, name string, run func(c C, r *Rec), opts ...Opt) *Sub[C] {
-	st := &subState{Name: name, Outcomes: map[string]int{}, w: w, Notes: map[string]any{}}
+	// journaling is on for every sub-check: code under test that panics on a goroutine of
+	// its own takes the worker process down, and only the journal says which case it was
+	st := &subState{Name: name, Outcomes: map[string]int{}, w: w, Notes: map[string]any{}, journal: true}
 	for _, o := range opts {
 		o(st)
 	}
